@@ -136,3 +136,13 @@ package client
 //@ loop 1 invariant len(operations) == rangeindex + 1 && len(operations) <= cap(operations) && (cap(operations) > 0 ==> fresh(operations))
 //@ loop 1 invariant forall i: int :: 0 <= i && i <= rangeindex ==> (operations[i].Op == "insert" && OpUUIDOf(operations[i], models[i]))
 
+// lock order (C18, F13): monitorsMutex is only taken while rpcMutex is held -
+// rpcMutex first, as connect() does - so a Monitor call and a reconnect cannot
+// wait for each other.
+//@ func (*ovsdbClient).Monitor group lockorder
+//@ at call sync.(*Mutex).Lock requires rheld(o.rpcMutex) >= 1 || wheld(o.rpcMutex) >= 1
+//@ at call client.(*ovsdbClient).monitor requires rheld(o.rpcMutex) >= 1 || wheld(o.rpcMutex) >= 1
+//@ func (*ovsdbClient).watchForLeaderChange group lockorder
+//@ at call sync.(*Mutex).Lock requires rheld(o.rpcMutex) >= 1 || wheld(o.rpcMutex) >= 1
+//@ at call client.(*ovsdbClient).monitor requires rheld(o.rpcMutex) >= 1 || wheld(o.rpcMutex) >= 1
+
